@@ -243,6 +243,39 @@ func VerifC13Hostile() {
 	vAssert(!p3 && e3 != nil, "C13.marshal-foreign-type")
 }
 
+// VerifC13Repeat: a process decodes many frames. A small concrete frame whose metadata names -
+// by symbolic choice - nothing, an unknown name, a method, or a registered message / service /
+// enum / field is offered three times in a row to the same codec, for every message type tag:
+// whatever an earlier decode left behind (caches, pooled objects) must not change the
+// treatment of the next one - no panic, the same verdict every time.
+func VerifC13Repeat() {
+	vCodec = &vCodecWorld{enc: map[proto.Message][]byte{}, failAt: -1}
+	names := []string{"", "verif.Nothing", "verif.Service.Method", "verif.Request", "verif.Service", "verif.Enum", "verif.Request.field"}
+	method := names[vChoice("method", len(names))]
+	vCodec.mdResult = &ordering.Metadata{MessageID: 7, Method: method}
+	mt := gorumsMsgType(vChoice("msgtype", 4))
+	b := []byte{1, 0xAA, 2, 0xBB, 0xCC} // metadata part of 1 byte, payload part of 2 bytes
+	codec := NewCodec()
+	first := false
+	for round := 0; round < 3; round++ {
+		out := &Message{Metadata: &ordering.Metadata{}, msgType: mt}
+		var err error
+		panicked := vExpectPanic(func() { err = codec.Unmarshal(b, out) })
+		vAssert(!panicked, "C13.unmarshal-panics")
+		if round == 0 {
+			first = err == nil
+		} else {
+			vAssert((err == nil) == first, "C13.decoding-not-repeatable")
+		}
+	}
+	if first {
+		vReach("repeat-decoded")
+	} else {
+		vReach("repeat-rejected")
+	}
+}
+
+func VerifC13RepeatTwin()    { VerifC13Repeat(); vFail("C13.twin") }
 func VerifC13RoundTripTwin() { VerifC13RoundTrip(); vFail("C13.twin") }
 func VerifC13HostileTwin()   { VerifC13Hostile(); vFail("C13.twin") }
 
